@@ -186,4 +186,10 @@ class RobustOdometrySE2(EdgeOdometry):
         return None
 
 
-CUSTOM_G2O_TYPES = [DistanceEdge, PointPriorXY, VisualRange, PriorTagP]
+class DistanceEdgeLate(DistanceEdge):
+    """Also claims EDGE_DISTANCE lines but is registered after DistanceEdge: the first registered type wins."""
+
+    KIND = "distance_late"
+
+
+CUSTOM_G2O_TYPES = [DistanceEdge, PointPriorXY, VisualRange, PriorTagP, DistanceEdgeLate]
